@@ -124,7 +124,19 @@ def check_output(out, kw):
                         fam = prop.split("-")[0]
                         if prop not in css_props and prop not in svg_props and fam not in ("background", "border", "margin", "padding"):
                             return ("style keeps property %r" % prop, "style-property")
+                        if prop not in css_props and prop not in svg_props:
+                            # kept only as a member of a shorthand family: every keyword must then be an allowed keyword,
+                            # a colour or a length (written here independently and a little wider than the sanitizer's
+                            # own test, so that only junk glued to a colour/length is rejected)
+                            keywords = kw.get("allowed_css_keywords", s.allowed_css_keywords)
+                            for word in decl.split(":", 1)[1].split() if ":" in decl else []:
+                                if word in keywords or _COLOUR_OR_LENGTH.match(word):
+                                    continue
+                                return ("style keeps keyword %r in shorthand property %r" % (word, prop), "style-keyword")
     return None
+
+
+_COLOUR_OR_LENGTH = re.compile(r"(#[0-9a-fA-F]+|rgb\([0-9%,]*\)?|[0-9.]*(cm|em|ex|in|mm|pc|pt|px|%|,|\))?)\Z")
 
 
 def judge_stream(stream):
